@@ -23,32 +23,49 @@ def norm_path(path):
     return re.sub(r"\{closure#\d+\}", "{closure}", path)
 
 
+def key_path(path):
+    """Function path as used in site keys: closures count for the function they are written in (moving an expression into or out of a
+    closure, e.g. `.unwrap_or_else(|_| unreachable!())` -> `match .. { Err(_) => unreachable!() }`, must not change the key)."""
+    return re.sub(r"(::\{closure#\d+\})+", "", path)
+
+
+# operations with the same panic condition share one kind: `&s[..i]` and `s.split_at(i).0` both panic iff i is out of range or not a char boundary
+KIND_CLASS = {"str_split_at": ("str_index", {"split_at": "index", "split_at_mut": "index_mut"})}
+
+
 def site_key(fn, s, seen):
-    detail = s["detail"]
-    if s["kind"] == "unwrap":
+    kind, detail = s["kind"], s["detail"]
+    if kind == "unwrap":
         # unwrap() and expect("..") are the same site: changing the message must not change the key
         detail = {"expect": "unwrap", "expect_err": "unwrap_err"}.get(detail, detail)
-    base = f"{norm_path(fn['path'])}|{s['kind']}|{detail}"
+    if kind in KIND_CLASS:
+        kind, m = KIND_CLASS[kind]
+        detail = m.get(detail, detail)
+    base = f"{key_path(fn['path'])}|{kind}|{detail}"
     n = seen.get(base, 0)
     seen[base] = n + 1
     return base if n == 0 else f"{base}#{n + 1}"
 
 
 def inventory(world, crate_names, fn_filter=None):
-    """[(fn, site, key)] for every non-cleanup potential panic/truncation site of the selected functions."""
+    """[(fn, site, key)] for every non-cleanup potential panic/truncation site of the selected functions. Sites of a function and of the
+    closures written in it share one ordinal space, numbered in source order."""
     out = []
     for cn in crate_names:
         c = world.crates[cn]
-        seen_by_path = {}
+        groups = {}
         for fn in sorted(c.all_fns(), key=lambda f: (norm_path(f["path"]), f["span"][1], f["path"])):
             if "body" not in fn:
                 continue
             if fn_filter and not fn_filter(fn):
                 continue
-            seen = seen_by_path.setdefault(norm_path(fn["path"]), {})   # sibling closures share one ordinal space, in source order
             for s in P.sites(fn):
                 if "Pointer" in s["kind"]:
                     continue  # debug-build pointer checks of unsafe blocks emitted by rustc, not source-level sites
+                groups.setdefault(key_path(fn["path"]), []).append((fn, s))
+        for kp in sorted(groups):
+            seen = {}
+            for fn, s in sorted(groups[kp], key=lambda x: x[1].get("line") or 0):
                 out.append((fn, s, site_key(fn, s, seen)))
     return out
 
